@@ -4,7 +4,7 @@
 import os,json,re,glob,subprocess
 root='/verif/seeded'
 rows=[]
-for sid in sorted(d for d in os.listdir(root) if os.path.isdir(os.path.join(root,d))):
+for sid in sorted(d for d in os.listdir(root) if os.path.isdir(os.path.join(root,d)) and d != 'benign'):
     d=os.path.join(root,sid)
     prop=sid.split('-')[0]
     notes=open(os.path.join(d,'notes.md')).read() if os.path.exists(os.path.join(d,'notes.md')) else ''
